@@ -389,6 +389,103 @@ class NDInterp(Interp):
     def x_full(s, shp, val, k):
         return s.np_full([shp, val], k)
 
+    def x_map_loop(s, st, it, env):
+        import ast
+        from .interp import Env
+        if it.coords is None or st.orelse:
+            return None
+        sizes, fn = it.coords
+        # body: [pure local assignments ...] + one or more stores  ARR[INDEXEXPR] = VALUE
+        body = list(st.body)
+        stores = [b for b in body if isinstance(b, ast.Assign) and len(b.targets) == 1 and isinstance(b.targets[0], ast.Subscript)]
+        if not stores or any(isinstance(x, (ast.Break, ast.Continue, ast.Return)) for b in body for x in ast.walk(b)):
+            return None
+        # symbolic placeholders for the box coordinates
+        J = [Sym(z3.Int(f'J!{j}!{next(s.counter)}'), 'int') for j in range(len(sizes))]
+        saved_pc = list(s.pc)
+        for Jj, sz in zip(J, sizes):
+            s.assume(z3.And(Jj.t >= 0, Jj.t < I(sz)))
+        e2 = Env(env)
+        s.assign(st.target, fn(J), e2)
+        plans = []
+        for b in body:
+            if b not in stores:
+                if not isinstance(b, ast.Assign) or any(not isinstance(t_, ast.Name) for t_ in b.targets):
+                    s.pc[:] = saved_pc
+                    return None
+                s.exec(b, e2)
+                continue
+            tgt = b.targets[0]
+            arr = s.ev(tgt.value, e2)
+            if not isinstance(arr, NDArr) or not arr.is_whole():
+                s.pc[:] = saved_pc
+                return None
+            index = s.ev(tgt.slice, e2)
+            index = list(index) if isinstance(index, (tuple, list)) else [index]
+            # the written cell index: symbolic components must be a permutation of the box coordinates J
+            perm = {}
+            for pos, comp in enumerate(index):
+                if isinstance(comp, slice):
+                    continue
+                if isinstance(comp, Sym):
+                    hit = [j for j, Jj in enumerate(J) if z3.simplify(comp.t).eq(Jj.t)]
+                    if len(hit) != 1 or hit[0] in perm.values():
+                        s.pc[:] = saved_pc
+                        return None
+                    perm[pos] = hit[0]
+                elif not isinstance(comp, int):
+                    s.pc[:] = saved_pc
+                    return None
+            if sorted(perm.values()) != list(range(len(J))):
+                s.pc[:] = saved_pc
+                return None
+            for pos, j in perm.items():
+                if dim_eq(s, arr.shape[pos], sizes[j]) is not True:
+                    s.pc[:] = saved_pc
+                    return None
+            plans.append((b, arr, index, perm))
+        s.pc[:] = saved_pc
+        for b, arr, index, perm in plans:
+            old = arr.buf.get
+            tgt = b.targets[0]
+
+            def get(bidx, b=b, arr=arr, index=index, perm=perm, old=old, tgt=tgt):
+                # the iteration that writes cell bidx: J_j := bidx[pos] for perm[pos] = j
+                Jv = [None] * len(J)
+                for pos, j in perm.items():
+                    Jv[j] = bidx[pos]
+                e3 = Env(env)
+                s.assign(st.target, fn(Jv), e3)
+                for bb in body:
+                    if bb is b:
+                        break
+                    if bb not in stores:
+                        s.exec(bb, e3)
+                idx_now = s.ev(tgt.slice, e3)
+                idx_now = list(idx_now) if isinstance(idx_now, (tuple, list)) else [idx_now]
+                # concrete components of the index restrict which cells are written by this store
+                cond = True
+                for pos, comp in enumerate(idx_now):
+                    if isinstance(comp, int) and pos not in perm:
+                        cond = s.and_(cond, s.cmp('==', bidx[pos], comp))
+                val = s.ev(b.value, e3)
+                # value broadcast into the sub-array arr[index]
+                sub_axes = [pos for pos in range(len(arr.shape)) if pos >= len(idx_now) or isinstance(idx_now[pos], slice)]
+                vs, gv = s.as_operand(val)
+                sub_idx = [bidx[pos] for pos in sub_axes]
+                off = len(sub_idx) - len(vs)
+                if off < 0:
+                    raise Unsupported('map-loop: value of higher rank than the target slot')
+                vi = [0 if (isinstance(d, int) and d == 1) else i for i, d in zip(sub_idx[off:], vs)]
+                conv = {'bool': s.asbool, 'int': s.trunc_int, 'float': s.to_float, 'complex': (lambda x: x)}[arr.dtype]
+                new = conv(gv(vi))
+                if cond is True:
+                    return new
+                return s.ite(cond, new, old(bidx))
+            arr.buf.get = get
+            arr.buf.version += 1
+        return True
+
     # ------------------------------------------------------------------ helpers
     def asarr(s, v):
         if isinstance(v, NDArr):
@@ -785,7 +882,7 @@ class NDInterp(Interp):
 
         def f(p, q_, w, o):
             if isinstance(w, bool):
-                return s.arith('/', p, q_) if w else o
+                return s.cell_div(p, q_) if w else o
             # the quotient is only evaluated where selected: guarded definition + guarded side obligation
             d = s.fresh('gdiv', 'float', True)
             s.assume(z3.Implies(B(w), d.t * R(q_) == R(p)))
@@ -887,6 +984,10 @@ class NDInterp(Interp):
 
         def get(idx):
             ii = list(idx[:-1]) if keep else list(idx)
+            xs = [arr.at(s, ii + [l]) for l in range(L)]
+            if all(is_conc_num(x) or isinstance(x, bool) for x in xs):
+                import math
+                return fractions.Fraction(math.sqrt(sum(float(x) ** 2 for x in xs)))
             r = F(*[I(i) for i in ii]) if ii else F()
             sq = z3.RealVal(0)
             for l in range(L):
